@@ -1,6 +1,36 @@
-"""Translators that regenerate coq/Gen/*.v from /repo on every run (fail closed)."""
-from . import gen_batch
+"""Translators that regenerate coq/Gen/*.v from /repo on every run (fail closed).
 
-UNITS = {
-    "GenBatch": gen_batch,
+UNITS maps the Gen file name to the module (in this package) whose generate(repo)
+returns the file's text.  To register a unit add ONE line to UNIT_MODULES."""
+import importlib
+
+UNIT_MODULES = {
+    "GenBatch": "gen_batch",
+    "GenFmt": "gen_fmt",
+    "GenReap": "gen_reap",
+    "GenStages": "gen_stages",
+    "GenWelford": "gen_welford",
 }
+
+
+class _Broken:
+    """Stands in for a unit whose module cannot even be imported (fails closed)."""
+
+    def __init__(self, err):
+        self.err = err
+
+    def generate(self, repo):
+        raise RuntimeError(f"translator module failed to import: {self.err}")
+
+
+def _load():
+    out = {}
+    for name, modname in UNIT_MODULES.items():
+        try:
+            out[name] = importlib.import_module(f"{__name__}.{modname}")
+        except Exception as e:  # noqa
+            out[name] = _Broken(f"{type(e).__name__}: {e}")
+    return out
+
+
+UNITS = _load()
